@@ -11,6 +11,8 @@ CORPUS = [
     ('fn scale(factor factor: Int, value value: Float) -> Float { value }\nfn capture() { let g = scale(value: 2.5, factor: 1)  g }\n', 'g =', 'Float'),
     ('fn scale(factor factor: Int, value value: Float) -> Float { value }\nfn capture() { let g = scale(2.5, factor: _)  g }\n', 'g =', 'fn(Int) -> Float'),
     ('fn build(name name: String, weight weight: Float, flag flag: Bool) { #(name, weight, flag) }\nfn capture3() { let h = build(1.5, name: _, flag: True)  h }\n', 'h =', 'fn(String) -> #(String, Float, Bool)'),
+    ('fn pair(first, second) { #(first, second) }\nfn first() { pair(1, "a") }\nfn other() { let o = pair(1.5, Nil)  o }\n', 'o =', '#(Float, Nil)'),
+    ('fn other() { let o = pair(1.5, Nil)  o }\nfn first() { pair(1, "a") }\nfn pair(first, second) { #(first, second) }\n', 'o =', '#(Float, Nil)'),
     ('fn pair(a a: Int, b b: String) { #(a, b) }\nfn use_it() { let r = pair(b: "x", a: 1)  r }\n', 'r =', '#(Int, String)'),
     ('fn apply(f: fn(Int) -> String, x: Int) { f(x) }\nfn main() { let s = apply(fn(i) { "a" }, 1)  s }\n', 's =', 'String'),
     ('fn id(x) { x }\nfn main() { let a = id(1)  let b = id("s")  #(a, b) }\n', 'b =', 'String'),
@@ -42,6 +44,13 @@ def run_kernel(chk, tier, jobs, props):
         res, complete = explore.explore(unifier.call_factory, (kk,), jobs=jobs)
         chk.add_run('infer_expr on a call with %d arguments: labels from {none,a,b}, each argument a capture hole or an Int literal' % kk, res, complete, {'arguments': kk},
                     nontrivial_classes=lambda c: c in ('call', 'capture'))
+        found += [v for v in res.violations if any(w.startswith(tuple(props)) for w in v['why'])]
+    from . import deporder
+    deporder.W = unifier.W
+    for nv in (1, 2) if tier == 'quick' else (1, 2, 3):
+        res, complete = explore.explore(deporder.factory, (nv,), jobs=1)
+        chk.add_run('dependency_order_query: one function whose body has %d identifier expressions (under-constrained database)' % nv, res, complete, {'identifiers': nv},
+                    nontrivial_classes=lambda c: c.startswith('edges:') and c != 'edges:0')
         found += [v for v in res.violations if any(w.startswith(tuple(props)) for w in v['why'])]
     for n in range(1, B['tables'] + 1):
         res, complete = explore.explore(unifier.table_factory, (n,), jobs=jobs)
@@ -93,6 +102,8 @@ def main(tier, seed):
     chk.assumptions += [
         'kernel claim: UnionFind (all sequences of k unify on n elements, Kani/CBMC with unwinding assertions), InferCtx::{unify, unify_var_ty, try_unify_var} and Collector over small tables built directly; '
         'InferCtx.db / resolver / body are opaque values the unifier must not touch; the whole-program statement (types of binders in generated programs), make_ty_from_typeref, instantiation and SCC ordering need the salsa database and are outside the claim',
+        'call kernel: InferCtx::infer_expr (real MIR, real table and unifier) on calls built directly as arena data: <= 2 (thorough 3) arguments, labels from {none,a,b}, each argument a capture hole or an Int literal, the callee a hole so that the type the call imposes is read back from the table',
+        'dependency-order kernel: dependency_order_query on its real MIR with the database havoc\'d and one function body of <= 2 (thorough 3) identifier expressions: every non-self edge must come from resolve_name on a resolver built by resolver_for_expr for that very expression; the SCC computation (petgraph) is not executed',
         'reference for label reordering: labelled parameters are paired by label in any order, the remaining ones by position; parameter mismatches do not fail the unification, the return type does (as the code documents)',
         'kernel findings are reported only if a public-API corpus of typed programs (hover) shows a wrong type or a crash as well']
     chk.trusted += ['rustc MIR', 'mirsym interpreter + models (Vec, Option, itertools::find_position, HashMap as association list, Arc transparent)', 'z3', 'Kani 0.68 / CBMC 6.11 (union-find)']
